@@ -15,6 +15,7 @@
 package ggql
 
 import (
+	"math"
 	"strconv"
 )
 
@@ -79,6 +80,9 @@ func (t *int64Scalar) CoerceOut(v interface{}) (interface{}, error) {
 	case int64:
 		// ok as is
 	case uint:
+		if math.MaxInt64 < uint64(tv) {
+			return nil, newCoerceErr(tv, "Int64")
+		}
 		v = int64(tv)
 	case uint8:
 		v = int64(tv)
@@ -87,6 +91,9 @@ func (t *int64Scalar) CoerceOut(v interface{}) (interface{}, error) {
 	case uint32:
 		v = int64(tv)
 	case uint64:
+		if math.MaxInt64 < tv {
+			return nil, newCoerceErr(tv, "Int64")
+		}
 		v = int64(tv)
 	case string:
 		var i int64
